@@ -650,6 +650,203 @@ fn cancel_case(kind: Kind, raw: bool, seed: u64, rep: &mut Report) {
     }
 }
 
+// ---- strict call / answer alternation for every frame size -----------------------------------------
+//
+// One side sends a call and then WAITS for the answer before it sends anything else, so nothing more
+// arrives behind a frame: a receiver that holds a complete frame but goes back to the socket for more
+// never delivers it. A hang is not judged by the clock alone: when the deadline fires, the sender's
+// send has returned Ok (every byte is in the kernel) and the receiver's socket has nothing left to
+// read (FIONREAD == 0, checked through a duplicate of its descriptor), then the receiver has taken
+// the whole frame off the socket and still not delivered it.
+
+fn unread_bytes(probe: &std::os::unix::net::UnixStream) -> Option<usize> {
+    use std::os::fd::AsRawFd;
+    let mut n: libc::c_int = 0;
+    let r = unsafe { libc::ioctl(probe.as_raw_fd(), libc::FIONREAD, &mut n) };
+    if r == 0 { Some(n as usize) } else { None }
+}
+
+async fn pingpong<S: Socket>(kind: Kind, mut a: Connection<S>, mut b: Connection<S>, probe_a: std::os::unix::net::UnixStream, probe_b: std::os::unix::net::UnixStream, targets: &[usize]) -> Result<u64, (String, String)> {
+    let grace = Duration::from_secs(15);
+    let mut done = 0u64;
+    for (k, target) in targets.iter().enumerate() {
+        // a -> b: a call whose frame (without the terminator) is exactly `target` bytes
+        for (dirn, len) in [(3u8, exact_fit(3, k as u64, *target).unwrap_or(*target)), (4u8, k % 7)] {
+            let bd = body(dirn, k as u64, len);
+            let call = Call::new(Msg::Data { id: k as u64, dir: dirn, len, body: Cow::Borrowed(&bd) });
+            let frame_len = serde_json::to_vec(&call).unwrap().len();
+            let (tx, rx, probe) = if dirn == 3 { (&mut a, &mut b, &probe_b) } else { (&mut b, &mut a, &probe_a) };
+            match with_deadline(kind, Duration::from_secs(60), tx.send_call(&call)).await {
+                Some(Ok(())) => {}
+                Some(Err(e)) => return Err(("C19/send-failed".into(), format!("frame of {frame_len} bytes: {e:?}"))),
+                None => return Err(("inconclusive".into(), format!("send of a {frame_len}-byte frame to a reading peer did not finish within 60 s"))),
+            }
+            match with_deadline(kind, grace, rx.receive_call::<Msg<'_>>()).await {
+                Some(Ok(c)) => {
+                    let Msg::Data { id, dir: d, len: l, body: gb } = c.method();
+                    if *id != k as u64 || *d != dirn || *l != len || **gb != *bd {
+                        return Err(("C19/message-content-corrupted".into(), format!("alternating exchange, frame of {frame_len} bytes: received id {id} dir {d} len {l}")));
+                    }
+                    done += 1;
+                }
+                Some(Err(e)) => return Err(("C19/receive-failed-on-a-sent-message".into(), format!("alternating exchange, frame of {frame_len} bytes: {e:?}"))),
+                None => {
+                    // give the receiver more time, then look at the facts
+                    sleep(kind, Duration::from_secs(5)).await;
+                    return match unread_bytes(probe) {
+                        Some(0) => Err(("C19/complete-frame-taken-off-the-socket-but-not-delivered".into(), format!("alternating exchange (the sender waits for the answer): the send of a {frame_len}-byte frame returned Ok, the receiver's socket has no unread bytes left, and receive_call has not returned for {} s", grace.as_secs() + 5))),
+                        Some(n) => Err(("inconclusive".into(), format!("receiver has not read {n} bytes of a {frame_len}-byte frame after {} s", grace.as_secs() + 5))),
+                        None => Err(("inconclusive".into(), "FIONREAD failed".into())),
+                    };
+                }
+            }
+        }
+    }
+    Ok(done)
+}
+
+fn pingpong_case(kind: Kind, seed: u64, rep: &mut Report) {
+    let mut rng = Rng::derive(seed, 1920);
+    // every multiple of the 256-byte buffer step up to 4 KiB with its neighbours, some larger multiples, random sizes
+    let mut targets: Vec<usize> = Vec::new();
+    let base = rng.range(1, 16);
+    for m in [base, base + 16 * rng.range(1, 6), *rng.pick(&[64usize, 128, 256, 257, 1024])] {
+        for d in [-1isize, 0, 1] {
+            targets.push((256 * m as isize + d) as usize);
+        }
+    }
+    for _ in 0..6 {
+        targets.push(rng.range(70, 3000));
+    }
+    for i in (1..targets.len()).rev() {
+        targets.swap(i, rng.below(i + 1));
+    }
+    let desc = format!("alternating {} seed={} frames={:?}", kind.name(), seed, targets);
+    let replay = json!({"monitor": "c19", "case": desc});
+    let res: Result<u64, (String, String)> = run_on(kind, async {
+        let (sa, sb) = std::os::unix::net::UnixStream::pair().map_err(|e| ("inconclusive".to_string(), e.to_string()))?;
+        let (pa, pb) = (sa.try_clone().map_err(|e| ("inconclusive".to_string(), e.to_string()))?, sb.try_clone().map_err(|e| ("inconclusive".to_string(), e.to_string()))?);
+        sa.set_nonblocking(true).ok();
+        sb.set_nonblocking(true).ok();
+        match kind {
+            Kind::Smol => {
+                let a = smol::Async::new(sa).map_err(|e| ("inconclusive".to_string(), e.to_string()))?;
+                let b = smol::Async::new(sb).map_err(|e| ("inconclusive".to_string(), e.to_string()))?;
+                pingpong(kind, Connection::new(zlink_smol::unix::Stream::from(a)), Connection::new(zlink_smol::unix::Stream::from(b)), pa, pb, &targets).await
+            }
+            _ => {
+                let a = tokio::net::UnixStream::from_std(sa).map_err(|e| ("inconclusive".to_string(), e.to_string()))?;
+                let b = tokio::net::UnixStream::from_std(sb).map_err(|e| ("inconclusive".to_string(), e.to_string()))?;
+                pingpong(kind, Connection::new(zlink_tokio::unix::Stream::from(a)), Connection::new(zlink_tokio::unix::Stream::from(b)), pa, pb, &targets).await
+            }
+        }
+    });
+    rep.eval(vnet::fnv(desc.as_bytes()));
+    rep.count("alternating_exchanges");
+    match res {
+        Ok(n) => {
+            rep.add("alternating_messages_delivered", n);
+            rep.evaluations += n;
+        }
+        Err((sig, d)) if sig == "inconclusive" => rep.inconclusive.push(format!("{d}; {desc}")),
+        Err((sig, d)) => rep.violation(&sig, format!("{d}; {desc}"), replay),
+    }
+}
+
+// ---- abandoned receives --------------------------------------------------------------------------
+//
+// A plain writer thread dribbles the reference encodings of N messages into the socket in small pieces;
+// the zlink receiver wraps every receive in a very short timer, so receives are abandoned (their futures
+// dropped) while a message has only partly arrived, and started again. Nothing may be lost or garbled.
+
+async fn recv_abandoning<S: Socket>(kind: Kind, mut c: Connection<S>, n: usize, lens: &[usize], seed: u64) -> Result<(u64, u64), (String, String)> {
+    let mut rng = Rng::derive(seed, 1922);
+    let mut abandoned = 0u64;
+    let mut got = 0usize;
+    let started = std::time::Instant::now();
+    while got < n {
+        if started.elapsed() > Duration::from_secs(120) {
+            return Err(("inconclusive".into(), format!("only {got} of {n} messages after 120 s ({abandoned} receives abandoned)")));
+        }
+        let d = Duration::from_micros(*rng.pick(&[0u64, 50, 200, 800, 3000]));
+        match with_deadline(kind, d, c.receive_call::<Msg<'_>>()).await {
+            None => abandoned += 1,
+            Some(Err(e)) => return Err(("C19/message-lost-or-garbled-after-an-abandoned-receive".into(), format!("receive #{got} failed with {e:?} after {abandoned} abandoned receives"))),
+            Some(Ok(call)) => {
+                let Msg::Data { id, dir, len, body: b } = call.method();
+                if *id != got as u64 || *dir != 5 || *len != lens[got] || **b != *body(5, got as u64, lens[got]) {
+                    return Err(("C19/message-lost-or-garbled-after-an-abandoned-receive".into(), format!("expected message {got} (len {}), received id {id} dir {dir} len {len} after {abandoned} abandoned receives", lens[got])));
+                }
+                got += 1;
+            }
+        }
+    }
+    Ok((got as u64, abandoned))
+}
+
+fn abandoned_receive_case(kind: Kind, seed: u64, rep: &mut Report) {
+    let mut rng = Rng::derive(seed, 1921);
+    let n = rng.range(6, 20);
+    let lens: Vec<usize> = (0..n).map(|_| { let l = *rng.pick(&[0usize, 10, 190, 250, 600, 3000, 20_000, 70_000]); l + rng.below(7) }).collect();
+    let mut stream = Vec::new();
+    for (i, len) in lens.iter().enumerate() {
+        let bd = body(5, i as u64, *len);
+        let call = Call::new(Msg::Data { id: i as u64, dir: 5, len: *len, body: Cow::Borrowed(&bd) });
+        stream.extend(serde_json::to_vec(&call).unwrap());
+        stream.push(0);
+    }
+    let desc = format!("abandoned-receive {} seed={} lens={:?}", kind.name(), seed, lens);
+    let replay = json!({"monitor": "c19", "case": desc});
+    let total = stream.len();
+    let res: Result<(u64, u64), (String, String)> = run_on(kind, async {
+        let (sa, sb) = std::os::unix::net::UnixStream::pair().map_err(|e| ("inconclusive".to_string(), e.to_string()))?;
+        sb.set_nonblocking(true).ok();
+        let wseed = seed;
+        let writer = std::thread::spawn(move || {
+            use std::io::Write;
+            let mut sa = sa;
+            let mut r = Rng::derive(wseed, 1923);
+            let mut off = 0;
+            while off < stream.len() {
+                let k = (*r.pick(&[1usize, 7, 100, 255, 256, 257, 1000, 5000, 40_000])).min(stream.len() - off);
+                if sa.write_all(&stream[off..off + k]).is_err() {
+                    break;
+                }
+                off += k;
+                if r.chance(2, 3) {
+                    std::thread::sleep(Duration::from_micros(*r.pick(&[20u64, 100, 400, 1500])));
+                }
+            }
+            // keep the socket open until the receiver is done (it is dropped with the thread's return value)
+            sa
+        });
+        let r = match kind {
+            Kind::Smol => {
+                let b = smol::Async::new(sb).map_err(|e| ("inconclusive".to_string(), e.to_string()))?;
+                recv_abandoning(kind, Connection::new(zlink_smol::unix::Stream::from(b)), n, &lens, seed).await
+            }
+            _ => {
+                let b = tokio::net::UnixStream::from_std(sb).map_err(|e| ("inconclusive".to_string(), e.to_string()))?;
+                recv_abandoning(kind, Connection::new(zlink_tokio::unix::Stream::from(b)), n, &lens, seed).await
+            }
+        };
+        let _ = writer.join();
+        r
+    });
+    rep.eval(vnet::fnv(desc.as_bytes()));
+    rep.count("abandoned_receive_cases");
+    rep.add("abandoned_receive_stream_bytes", total as u64);
+    match res {
+        Ok((got, abandoned)) => {
+            rep.add("messages_received_intact_despite_abandoned_receives", got);
+            rep.add("receives_abandoned", abandoned);
+            rep.evaluations += got;
+        }
+        Err((sig, d)) if sig == "inconclusive" => rep.inconclusive.push(format!("{d}; {desc}")),
+        Err((sig, d)) => rep.violation(&sig, format!("{d}; {desc}"), replay),
+    }
+}
+
 // ---- connection ids ----------------------------------------------------------------------------
 
 fn ids_case(rep: &mut Report, threads: usize, per: usize) {
@@ -733,6 +930,21 @@ pub fn run(cfg: &Cfg) -> Report {
         for k in 0..n {
             let idx = k * cfg.shards as u64 + cfg.shard as u64;
             cancel_case(kinds[(idx % 3) as usize], (idx / 3) % 2 == 0, cfg.seed.wrapping_mul(7919).wrapping_add(idx), &mut rep);
+        }
+    }
+    // (2b) strict alternation for frame sizes at the buffer steps; (2c) abandoned receives
+    if only.is_none() || only == Some("alternate") {
+        let n = cfg.n(if heavy { 12 } else { 240 }, if heavy { 48 } else { 4800 });
+        for k in 0..n {
+            let idx = k * cfg.shards as u64 + cfg.shard as u64;
+            pingpong_case(kinds[(idx % 3) as usize], cfg.seed.wrapping_mul(104_729).wrapping_add(idx), &mut rep);
+        }
+    }
+    if only.is_none() || only == Some("cancelrecv") {
+        let n = cfg.n(if heavy { 12 } else { 240 }, if heavy { 48 } else { 4800 });
+        for k in 0..n {
+            let idx = k * cfg.shards as u64 + cfg.shard as u64;
+            abandoned_receive_case(kinds[(idx % 3) as usize], cfg.seed.wrapping_mul(15_485_863).wrapping_add(idx), &mut rep);
         }
     }
     // (3) ids
